@@ -9,10 +9,32 @@ Local Open Scope N_scope.
 
 (* ---------------------------------------------------------------- the property *)
 
+(* The registered error kinds and the Wrap hierarchy of the provider packages, pinned here by
+   hand (the monitor must not move with the code): 1 freighter.EOF 2 freighter.ErrStreamClosed
+   3 query.ErrNotFound 4 query.ErrUniqueViolation 5 query.ErrInvalidParameters 6 query.ErrQuery
+   7 control.ErrUnauthorized 9 validate.ErrValidation are encoded by a provider; 8 control.ErrControl
+   and 10/11/12 validate.ErrRequired/ErrInvalidType/ErrConversion are declared but not encoded.
+   StreamErrors.tables_pinned proves the generated tables agree. *)
+Definition reg_kinds : list N := [1; 2; 3; 4; 5; 6; 7; 9].
+Definition kind_parents : list (N * N) := [(3, 6); (4, 6); (5, 6); (7, 8); (10, 9); (11, 9); (12, 9)].
+Definition misa (k s : N) : bool := isa_tab kind_parents k s.
+
+(* the registered kind of an error: the nearest sentinel on its Wrap chain that a provider encodes *)
+Fixpoint reg_anc_fuel (fuel : nat) (k : N) : option N :=
+  if existsb (N.eqb k) reg_kinds then Some k else
+  match fuel with
+  | O => None
+  | S f => match find (fun p => fst p =? k) kind_parents with
+           | Some (_, q) => reg_anc_fuel f q
+           | None => None
+           end
+  end.
+Definition reg_anc (k : N) : option N := reg_anc_fuel (List.length kind_parents) k.
+
 (* does the error the client received match what the handler returned?
-   nil => end-of-stream; an error of a registered kind (some provider encodes it) => errors.Is
-   against that kind's sentinel still holds (PathError: still a PathError whose inner error
-   matches); any other error => an error, not end-of-stream. *)
+   nil => end-of-stream; an error of a registered kind => errors.Is against that kind's sentinel
+   still holds (PathError: still a PathError whose inner error matches); any other error => an
+   error, not end-of-stream. *)
 Definition matches (e : option err) (o : trip) : bool :=
   let cls := fst (fst o) in
   let inner := snd (fst o) in
@@ -21,10 +43,10 @@ Definition matches (e : option err) (o : trip) : bool :=
   | Some e =>
       if e_path e then
         (cls =? cPath) &&
-        match enc_rule (e_kind e) with Some (s, _) => isa inner s | None => true end
+        match reg_anc (e_kind e) with Some s => misa inner s | None => true end
       else
-        match enc_rule (e_kind e) with
-        | Some (s, _) => isa cls s
+        match reg_anc (e_kind e) with
+        | Some s => misa cls s
         | None => negb (cls =? cEOF)
         end
   end.
